@@ -218,6 +218,58 @@ func findCmd(args []string) error {
 					}
 				}
 			}
+			// relative paths (implementation only): a relative start is looked at on its own (its parent is itself), a relative
+			// stop never matches, so the climb ends at the file-system root; either way Find must return
+			if depth >= 1 && treeNo%7 == 0 && hangs < 3 {
+				cwd0, _ := os.Getwd()
+				for sl := 0; sl <= depth && hangs < 3; sl++ {
+					startP := segPath(base, chain[sl])
+					for variant := 0; variant < 2 && hangs < 3; variant++ {
+						var a, b, want string
+						if variant == 0 {
+							os.Chdir(startP)
+							a, b = ".", segPath(base, chain[0])
+							want = "N"
+							if hasSpok[sl] {
+								want = "F " + startP
+							}
+						} else {
+							a, b = startP, "relative-stop"
+							want = "N"
+							for k := sl; k >= 0; k-- {
+								if hasSpok[k] {
+									want = "F " + segPath(base, chain[k])
+									break
+								}
+							}
+						}
+						resCh := make(chan string, 1)
+						go func() {
+							p, err := file.Find(log, a, b)
+							switch {
+							case err == nil:
+								resCh <- "F " + filepath.Dir(p)
+							case err.Error() == "No spokfile found":
+								resCh <- "N"
+							default:
+								resCh <- "E"
+							}
+						}()
+						res := "HANG"
+						select {
+						case res = <-resCh:
+						case <-time.After(3 * time.Second):
+							hangs++
+						}
+						os.Chdir(cwd0)
+						st.StopKinds["relative-start-or-stop(impl only)"]++
+						if res != want {
+							st.OracleFail["C17"]++
+							fmt.Fprintf(bo, "C17 %s|rel%d|%d Find(start=%q, stop=%q) from a tree with a spokfile at levels %v returned %q, expected %q\n", strings.Join(dirEnc, ";"), variant, sl, a, b, hasSpok, strings.TrimPrefix(res, base), strings.TrimPrefix(want, base))
+						}
+					}
+				}
+			}
 			os.RemoveAll(base)
 		}
 	}
